@@ -431,4 +431,20 @@ example : ∃ s, PReach { exAcyclic with runner := .thread, numProc := 3 } s ∧
     s.dispatched ≠ [] :=
   ⟨_, autoRun_preach (by decide) false true 40 _ PReach.init, by decide +kernel, by decide +kernel⟩
 
+
+/-- an input on which a FAILED calc task delivers: `2` has calc_dep `0`; `0` is executed, returns `task_dep: [1]` and then
+    fails (`calcResFail`); `--continue` -/
+def exFailDeliver : RunInput :=
+  { taskDep := fun _ => [], calcDep := fun n => if n = 2 then [0] else [], setup := fun _ => [], sel := [2],
+    continue_ := true, outcome := fun n => if n = 0 then .failed else .ok,
+    calcResFail := fun n => if n = 0 then { tasks := [1] } else {} }
+
+/-- the theorems of this section are not vacuous on such inputs: the run ends, the delivered task `1` is created,
+    executed and reported, `2` is reported (unmet) — and the order statement applies to all three -/
+example : ∃ s, Reach exFailDeliver s ∧ s.rpc = .halted ∧ s.events.countP (Ev.isTerminalOf 1) = 1 ∧
+    s.events.countP (Ev.isStartOf 1) = 1 ∧ s.events.countP (Ev.isTerminalOf 2) = 1 ∧
+    s.events.countP (Ev.isStartOf 2) = 0 :=
+  ⟨_, autoRun_reach (by decide) false false 400 _ Reach.init, by decide +kernel, by decide +kernel, by decide +kernel,
+    by decide +kernel, by decide +kernel⟩
+
 end DoitModel.C09
